@@ -22,6 +22,9 @@ macro_rules! abstract_ty {
     )* } }
 }
 abstract_ty!(Ty, Substitution, Const, Lifetime, DynTy, AliasTy, FnPointer, CanonicalVarKinds, AdtId, AssocTypeId, OpaqueTyId, FnDefId, ClosureId, CoroutineId, ForeignDefId);
+// chalk-ir: `#[derive(Copy, Clone, ..)] pub struct AdtId<I: Interner>(pub I::InternedAdtId);`
+impl<I: Interner> Copy for AdtId<I> {}
+impl<I: Interner> Clone for AdtId<I> { #[verifier::external_body] fn clone(&self) -> (r: Self) ensures r == *self { unimplemented!() } }
 #[verifier::external_body] pub struct Scalar { _p: () }
 #[verifier::external_body] pub struct Mutability { _p: () }
 #[verifier::external_body] pub struct PlaceholderIndex { _p: () }
@@ -80,8 +83,25 @@ impl<I: Interner> Substitution<I> {
 impl<I: Interner> Copy for TraitId<I> {}
 impl<I: Interner> Clone for TraitId<I> { #[verifier::external_body] fn clone(&self) -> (r: Self) ensures r == *self { unimplemented!() } }
 
+// neighbourhood API (not used by the pinned code of this unit): the ADT's datum, so that an edit which
+// consults the ADT's flags or kind is DECIDED against the language rule instead of being undecided
+#[verifier::external_body]
+#[verifier::reject_recursive_types(I)]
+pub struct AdtDatumBound<I: Interner> { _p: core::marker::PhantomData<I> }
+//@TYPE file=chalk-solve/src/rust_ir.rs kind=enum name=AdtKind attrs="#[derive(Clone, Copy)]"
+//@TYPE file=chalk-solve/src/rust_ir.rs kind=struct name=AdtFlags
+//@TYPE file=chalk-solve/src/rust_ir.rs kind=struct name=AdtDatum attrs="#[verifier::reject_recursive_types(I)]"
+impl vstd::std_specs::cmp::PartialEqSpecImpl for AdtKind {
+    open spec fn obeys_eq_spec() -> bool { true }
+    open spec fn eq_spec(&self, other: &Self) -> bool { *self == *other }
+}
+impl PartialEq for AdtKind { #[verifier::external_body] fn eq(&self, other: &Self) -> bool { unimplemented!() } }
+
 pub trait RustIrDatabase<I: Interner> {
     fn interner(&self) -> I;
+    spec fn spec_adt_datum(&self, id: AdtId<I>) -> AdtDatum<I>;
+    fn adt_datum(&self, adt_id: AdtId<I>) -> (r: std::sync::Arc<AdtDatum<I>>)
+        ensures *r == self.spec_adt_datum(adt_id);
     spec fn spec_well_known(&self, t: WellKnownTrait) -> Option<TraitId<I>>;
     /// (the lang item is declared whenever a goal for it exists: the code unwraps)
     fn well_known_trait_id(&self, well_known_trait: WellKnownTrait) -> (r: Option<TraitId<I>>)
